@@ -198,10 +198,16 @@ type solveJob struct {
 	vars  []scriptVariant
 }
 
+var noRetry bool
+
 func dischargeAll(obls []*Obligation, outDir string, timeoutS int, par int) {
 	_ = os.MkdirAll(outDir, 0o755)
+	if par > 6 {
+		par = 6 // each job races three solver processes
+	}
 	sem := make(chan struct{}, par)
 	var wg sync.WaitGroup
+	var jobs []*solveJob
 	for _, o := range obls {
 		// scripts are rendered sequentially: the term store is not thread-safe
 		vs := o.variants()
@@ -223,6 +229,7 @@ func dischargeAll(obls []*Obligation, outDir string, timeoutS int, par int) {
 			o.Model = "VC too large"
 			continue
 		}
+		jobs = append(jobs, job)
 		wg.Add(1)
 		sem <- struct{}{}
 		go func(j *solveJob) {
@@ -230,6 +237,28 @@ func dischargeAll(obls []*Obligation, outDir string, timeoutS int, par int) {
 			defer func() { <-sem }()
 			runJob(j, timeoutS)
 		}(job)
+	}
+	wg.Wait()
+	// second chance: obligations left undecided (possibly because the machine was saturated)
+	// are retried two at a time with a doubled time limit
+	sem2 := make(chan struct{}, 2)
+	for _, j := range jobs {
+		if j.o.Status != "unknown" || noRetry {
+			continue
+		}
+		wg.Add(1)
+		sem2 <- struct{}{}
+		go func(j *solveJob) {
+			defer wg.Done()
+			defer func() { <-sem2 }()
+			first := j.o.Time
+			j.o.Model = ""
+			runJob(j, 2*timeoutS)
+			j.o.Time += first
+			if j.o.Status == "unsat" {
+				j.o.Solver += "/retry"
+			}
+		}(j)
 	}
 	wg.Wait()
 }
